@@ -2,6 +2,6 @@
 # run every kept seeded change against its property's check; print one line each
 cd /verif
 for d in seeded/*/; do
-  n=$(basename $d); pid=$(python3 -c "import json;print(json.load(open('$d/meta.json'))['property'])")
+  n=$(basename $d); pid=$(python3 -c "import json;m=json.load(open('$d/meta.json'));print(m.get('checked_under',m['property']).split()[0])")
   out=$(timeout 1200 tools/tryseed.sh $n $pid 2>&1); echo "$n $pid: $(echo "$out" | grep -c '^VIOLATION') violation line(s); $(echo "$out" | tail -1)"
 done
